@@ -630,6 +630,14 @@ def check_convergence(mbi, case, eng, last, probes):
     model, meas, total, solver, options = last
     options = {}        # a caller-chosen constant step size carries no convergence guarantee: use the solver's own line search
     K = 300
+    # the warm starting point: spread of its parameters (>= 700 means exp() underflows: a saturated, one-hot start)
+    spread = 0.0
+    for cl in eng.model.cliques:
+        v = np.asarray(eng.model.potentials[cl].values, dtype=float)
+        v = v[np.isfinite(v)]
+        if v.size:
+            spread = max(spread, float(v.max() - v.min()))
+    sat = ':saturated-start' if spread >= 700 else ''
     gaps = []
     for mult in (1, 4, 16):
         warm_eng = copy.copy(eng)          # shares eng.model (the warm starting point) but not later state
@@ -657,9 +665,9 @@ def check_convergence(mbi, case, eng, last, probes):
     if len(gaps) == 3 and (gaps[-1][1] - gaps[-1][2]) <= 0.5 * (gaps[-2][1] - gaps[-2][2]):
         probes['convergence-slow-but-shrinking'] = probes.get('convergence-slow-but-shrinking', 0) + 1
         return None
-    return Violation('c13-warm-converges', 'c13-warm-converges:' + solver,
-                     'warm-started %s stays above the cold-start optimum: (iters x%d: L_warm=%.6g L_cold=%.6g L_uniform=%.6g) history of gaps %s' % (
-                         solver, gaps[-1][0], gaps[-1][1], gaps[-1][2], gaps[-1][3], [(m, round(a - b, 6)) for m, a, b, _ in gaps]))
+    return Violation('c13-warm-converges', 'c13-warm-converges:' + solver + sat,
+                     'warm-started %s stays above the cold-start optimum: (iters x%d: L_warm=%.6g L_cold=%.6g L_uniform=%.6g) history of gaps %s; parameter spread of the warm starting point %.4g' % (
+                         solver, gaps[-1][0], gaps[-1][1], gaps[-1][2], gaps[-1][3], [(m, round(a - b, 6)) for m, a, b, _ in gaps], spread))
 
 
 # ----------------------------------------------------------------------------------- shrinking
